@@ -2,6 +2,7 @@ import TracklibVerif.Lemmas.ExprRpn
 import TracklibVerif.Lemmas.ExprExact
 import TracklibVerif.Lemmas.ExprErr
 import TracklibVerif.Lemmas.ExprPre9
+import TracklibVerif.Lemmas.ExprExt
 /-! # C02 — algebraic feature expressions evaluate to ordinary arithmetic on the features
 
 Property theorems only (helpers: `Lemmas/Rpn.lean`, `Lemmas/RpnChars.lean`, `Lemmas/Expr.lean`, `Lemmas/ExprRpn.lean`,
@@ -328,6 +329,13 @@ theorem getitem_is_operate (tr : Tr α) (s : Str) (hs : strip s = s)
     (h : s.any (fun c => exprChars.contains c) = true) : getitemStr tr s = operate tr s := by
   simp only [getitemStr, hs, h, if_true]
 
+/-- **externals** (`Track.operate(expression, {'name': value})`): the machine that substitutes the values of the
+dictionary for their names is, with an empty dictionary, the machine of all the statements above. (With a non-empty
+dictionary an external is a number given by name; that reading is tied by the correspondence and judged by the
+oracle, stream `externals`, not proved.) -/
+theorem operate_no_externals (tr : Tr α) (expr : Str) : operateX [] tr expr = operate tr expr :=
+  operateX_nil tr expr
+
 /-! ## non-vacuity -/
 
 /-- the laws are those of exact arithmetic: rationals with a NaN element satisfy them -/
@@ -436,6 +444,10 @@ example : operate trEx "c=a/0".toList = (.error "err:zerodiv", trEx) := by
 /-- the new functions are part of the tree semantics: `DIODE{a}+ARGMAX{b}` on the toy scalar -/
 example : denoteM trEx (.bin '+' (.call ['D', 'I', 'O', 'D', 'E'] (.var ['a'])) (.call ['A', 'R', 'G', 'M', 'A', 'X'] (.var ['b'])))
     = .ok (.vec [3, 2, 6]) := by rfl
+
+/-- `operate("a/factor+k", {'factor': 2, 'k': 10})` on the toy scalar -/
+example : (operateX [(['f', 'a', 'c', 't', 'o', 'r'], 2), (['k'], 10)] trEx "b/factor+k".toList).1.toOption = some (some [11, 11, 12]) := by
+  decide +kernel
 
 /-- `Track["(a+b)*2"]` is `operate("(a+b)*2")`; but `Track["SUM{a}"]` looks up a feature called `SUM{a}` while
 `operate("SUM{a}")` evaluates it (the braces are not among the characters `__getitem__` tests) -/
